@@ -90,7 +90,8 @@ LEX = {
 }
 RDF_LEX = {"XMLLiteral": ["<a/>", "<a></a>", "<a>", "text", "<a b='1'/>", "<a  b=\"1\"/>"],
            "HTML": ["<b>x</b>", "x", "<b>x"]}
-CUSTOM_DT = ["http://e/dt", "urn:dt", "http://e/ü#d", XSD + "unknownType", "http://e/dt?a=b&c='d'"]
+CUSTOM_DT = ["http://e/dt", "urn:dt", "http://e/ü#d", XSD + "unknownType", "http://e/dt?a=b&c='d'",
+             "http://e/dt#code", "http://schema.org/Date", "https://schema.org/Date", "http://e/ns/text"]
 BAD_DT = ["http://e/d t", "http://e/d\"t", "http://e/d>t"]
 LANGS = ["en", "EN", "En", "en-US", "en-us", "fr", "de-Latn-DE", "de-latn-de", "x-a1"]
 BAD_LANGS = ["en_US", "1en", "en-", "en\n", "-en", "e n", "", "en--us", "\u00e9", "en-\n", "e\nn", "a-1-b"]
@@ -100,7 +101,9 @@ ATOMS = ["a", "b", "z", "A", "\"", "\"", "\\", "\\", "\n", "\r", "\t", "\x00", "
          ".", "inf", "nan", "\"\"", "'''", "{", "}", "#", "\u0130", "\u00df", "\u0661"]
 IRIS = ["http://e/a", "http://e/b", "http://e/a#f", "http://e/\u6f22", "urn:x:\u00fc", "http://e/\U0001F600",
         "http://e/a%20b", "http://e/a/../b", "http://e/A", "http://e/a?q=1&r='2'", "mailto:a@b", "http://e/a,b;c",
-        "http://x/.well-known/genid/a", "http://x/.well-known/genid/rdflib/a", "x", "a", "", "#f", "?x", "_:x", "true", "1"]
+        "http://x/.well-known/genid/a", "http://x/.well-known/genid/rdflib/a", "x", "a", "", "#f", "?x", "_:x", "true", "1",
+        "http://schema.org/Person", "https://schema.org/Person", "http://e/dt#code", "http://e/ns/thing", "http://e/ns/e1",
+        "http://e/ns/true", "http://e/ns/1", XSD + "integer", "http://e/ns/"]
 BAD_IRIS = ["http://e/a b", "http://e/<a>", "http://e/a\\b", "http://e/a\"b", "http://e/{a}", "http://e/a|b", "http://e/a^b",
             "http://e/a`b"]
 CTRL_IRIS = ["http://e/a\nb", "http://e/a\tb", "http://e/a\x00b", "http://e/a\rb"]
@@ -201,7 +204,44 @@ def gen_case(rng, tier, i):
     rng.shuffle(terms)
     p1 = list(range(n)); rng.shuffle(p1)
     p2 = list(range(n)); rng.shuffle(p2)
-    return {"terms": terms, "p1": p1, "p2": p2}
+    return {"terms": terms, "p1": p1, "p2": p2, "nsm": rng.choice(["custom", "rebind", "only"])}
+
+
+# ------------------------------------------------------------------ namespace managers, node picklers
+
+
+def _make_nsm(kind):
+    """custom: the default manager plus own prefixes; rebind: default prefixes (schema, owl, xsd) re-bound to other
+    namespaces; only: nothing bound but what is bound here (prefixes known only to the manager handed to from_n3)"""
+    from rdflib.namespace import NamespaceManager
+    if kind == "only":
+        nsm = NamespaceManager(Graph(), bind_namespaces="none")
+        nsm.bind("x", XSD)
+        nsm.bind("sdo", "http://schema.org/")
+    else:
+        nsm = Graph().namespace_manager
+    nsm.bind("ex", "http://e/")
+    nsm.bind("dt", "http://e/dt#")
+    nsm.bind("n", "http://e/ns/")
+    if kind == "rebind":
+        nsm.bind("schema", "http://schema.org/", override=True, replace=True)
+        nsm.bind("owl", "http://e/ns/", override=True, replace=True)
+        nsm.bind("xsd", "http://e/dt#", override=True, replace=True)
+    return nsm
+
+
+def _picklers():
+    """the ways a store's NodePickler is used: fresh, with the registrations Store.node_pickler makes,
+    and such a pickler after it was itself pickled / deep-copied (persisted with the object that holds it)"""
+    fresh = NodePickler()
+    reg = NodePickler()
+    for obj, key in ((URIRef, "U"), (BNode, "B"), (Literal, "L"), (Variable, "V"), (Genid, "Gi"), (RDFLibGenid, "Ri")):
+        reg.register(obj, key)
+    out = [("fresh", fresh, fresh), ("registered", reg, reg)]
+    for name, f in (("pickled", lambda: pickle.loads(pickle.dumps(reg))), ("deepcopied", lambda: copy.deepcopy(reg))):
+        r = _try(f)
+        out.append((name, reg, r))
+    return out
 
 
 # ------------------------------------------------------------------ building and describing terms
@@ -462,11 +502,11 @@ def run_impl(case):
             stats["sort_strict_lits"] = stats.get("sort_strict_lits", 0) + int(strict and len(lits) > 1)
 
     # ---------------- per term: pickling, copying, n3 text
-    np_ = NodePickler()
+    picklers = _picklers()
+    nsm = _try(lambda: _make_nsm(case.get("nsm", "custom")))
     for i, t in live:
         for name, f in (("pickle2", lambda: pickle.loads(pickle.dumps(t, 2))),
                         ("pickle", lambda: pickle.loads(pickle.dumps(t, pickle.HIGHEST_PROTOCOL))),
-                        ("nodepickler", lambda: np_.loads(np_.dumps(t))),
                         ("copy", lambda: copy.copy(t)), ("deepcopy", lambda: copy.deepcopy(t))):
             p = _try(f)
             tag = "copy" if name in ("copy", "deepcopy") else "pickle"
@@ -474,6 +514,18 @@ def run_impl(case):
                 V(tag, f"{name} of {t!r} raised {type(p).__name__}", i)
             elif not _same(p, t):
                 V(tag, f"{name} of {t!r} gives {p!r}", i)
+        for name, writer, reader in picklers:
+            if isinstance(reader, Exception):
+                V("nodepickler", f"NodePickler ({name}) could not be restored: {type(reader).__name__}", i)
+                continue
+            # bytes written by the pickler as it was, read by the (restored) pickler; and the restored one on its own
+            for how, f in (("written before", lambda: reader.loads(writer.dumps(t))), ("own", lambda: reader.loads(reader.dumps(t)))):
+                p = _try(f)
+                if isinstance(p, Exception):
+                    V("nodepickler", f"NodePickler ({name}, {how}) round trip of {t!r} raised {type(p).__name__}: {str(p)[:60]}", i)
+                elif not _same(p, t):
+                    V("nodepickler", f"NodePickler ({name}, {how}) round trip of {t!r} gives {p!r}", i)
+            stats["nodepickler_roundtrips"] = stats.get("nodepickler_roundtrips", 0) + 2
         text = _try(lambda: t.n3())
         k = kinds[i]
         s = str(t)
@@ -519,6 +571,18 @@ def run_impl(case):
             V("n3-" + reader, f"{t!r}: n3() text {text!r} read by {reader} gives {r!r}", i)
 
         check("from_n3", _try(lambda: from_n3(text)))
+        # the same through a namespace manager on both sides (prefixed names for IRIs and datatypes)
+        if k in ("iri", "lit") and not isinstance(nsm, Exception):
+            qtext = _try(lambda: t.n3(nsm))
+            if isinstance(qtext, Exception):
+                V("n3-nsm", f"{t!r}.n3(namespace_manager) raised {type(qtext).__name__}: {str(qtext)[:60]}", i)
+            else:
+                if qtext != text:
+                    stats["n3_prefixed"] = stats.get("n3_prefixed", 0) + 1
+                    nontrivial = True
+                save_text, text = text, qtext
+                check("nsm", _try(lambda: from_n3(qtext, nsm=nsm)))
+                text = save_text
         raw = _raw_from_n3(text)
         if k == "lit" and not isinstance(raw, Exception) and not _same(raw, t, exact_lang=False) and not _infnan(t):
             # with normalisation switched off the reader must give back exactly the term
@@ -580,11 +644,26 @@ def _steps(case, ts):
             st.append(("cmp", i, j))
     for i in live:
         st += [("n3", i), ("rd", i), ("rt", i)]
+        if isinstance(ts[i], (URIRef, Literal)):
+            st.append(("rdq", i))
     for i, tj in enumerate(case["terms"]):
         if tj["k"] == "lit" and _scalar(tj["lex"]) and _scalar(tj.get("dt") or "") and _scalar(tj.get("lang") or ""):
             st.append(("mk", i))
     st.append(("sort", [i for i in case["p1"] if i in live and not isinstance(ts[i], Literal)]))
     return st
+
+
+def _rdq(case, t):
+    """(n3 text through the case's namespace manager, the manager), or None when out of scope"""
+    nsm = _try(lambda: _make_nsm(case.get("nsm", "custom")))
+    if isinstance(nsm, Exception) or not _text_in_scope(t):
+        return None
+    text = _try(lambda: t.n3(nsm))
+    if isinstance(text, Exception) or not _scalar(text):
+        return None
+    if not all(_scalar(p) and _scalar(str(ns)) for p, ns in nsm.namespaces()):
+        return None
+    return text, nsm
 
 
 def _exc_name(e):
@@ -628,6 +707,18 @@ def _impl_obs(st, case, ts):
             return "rd -"
         raw = _raw_from_n3(text)
         return "rd " + (_exc_name(raw) if isinstance(raw, Exception) else enc(raw, True))
+    if kind == "rdq":
+        q = _rdq(case, ts[st[1]])
+        if q is None:
+            return "rdq -"
+        text, nsm = q
+        old = rdflib.NORMALIZE_LITERALS
+        rdflib.NORMALIZE_LITERALS = False
+        try:
+            raw = _try(lambda: from_n3(text, nsm=nsm))
+        finally:
+            rdflib.NORMALIZE_LITERALS = old
+        return "rdq " + (_exc_name(raw) if isinstance(raw, Exception) else enc(raw, True))
     if kind == "rt":
         t = ts[st[1]]
         p = _try(lambda: pickle.loads(pickle.dumps(t)))
@@ -662,6 +753,13 @@ def model_lines(case):
                 lines.append("skip")
             else:
                 lines.append("rd 0 " + _cps(text))
+        elif kind == "rdq":
+            q = _rdq(case, ts[st[1]])
+            if q is None:
+                lines.append("skip")
+            else:
+                text, nsm = q
+                lines.append("rdq 0 " + _cps(text) + "".join(" %s %s" % (_cps(p), _cps(str(ns))) for p, ns in nsm.namespaces()))
         elif kind == "mk":
             tj = case["terms"][st[1]]
             if not _mk_modelled(tj):
@@ -700,6 +798,8 @@ def select_model_obs(case, out):
                     print("text differs:", repr(_uncps(o)), repr(t.n3()), file=sys.stderr)
         elif kind == "rd":
             res.append("rd " + ("-" if o == "bad-op" and _skipped(st, case, ts) else _fold_lang(o)))
+        elif kind == "rdq":
+            res.append("rdq " + ("-" if o == "bad-op" and _rdq(case, ts[st[1]]) is None else _fold_lang(o)))
         elif kind in ("rt", "mk"):
             res.append(kind + " " + ("-" if o == "bad-op" and _skipped(st, case, ts) else o))
         elif kind == "sort":
